@@ -98,7 +98,9 @@ static void check_projection(Ctx& ctx, const Ell& E, const Under& U, const Oracl
     ctx.sig((uint64_t)singular + 2 * (uint64_t)regpole + 4 * (uint64_t)(P.finite ? 1 : 0));
     // conditioning: results are doubles, so a plane error of ULPS ulp of the working size (a, rho0, |x|, |y|) is unavoidable; on the ground it is amplified by 1/k
     // (conformal) resp. max(k, 1/k) (equal area: east-west plane errors shrink by k, north-south ones grow by k)
-    const Q size = std::max(std::max(fabsq(Q(x)), fabsq(Q(y))), std::max(fabsq(O.rho0), E.a));
+    Q size = std::max(std::max(fabsq(Q(x)), fabsq(Q(y))), std::max(fabsq(O.rho0), E.a));
+    // AlbersEqualArea works at unit scale and divides x, y by the central scale k0 at the end: the working size is a/k0 (matters after SetScale to an extreme scale)
+    if (!O.conformal && U.has_origin && U.k0c > 0) size = std::max(size, E.a / Q(U.k0c));
     const Q eps_plane = ULPS * 1.1e-16Q * size;
     const Q amp = !finiteq(kk) ? Q(1) : (O.conformal ? 1 / kk : (kk > 1 ? kk : 1 / kk));
     // equal area near a pole: the radial plane coordinate is stationary in latitude (d rho ~ sin(colat) d colat): a plane error eps maps to at most sqrt(2 a eps) on the ground
@@ -154,7 +156,7 @@ static void check_projection(Ctx& ctx, const Ell& E, const Under& U, const Oracl
       Lat Ln = proj_cf::latd(lat > 0 ? 89.999999999 : -89.999999999);
       XY Pn = O.fwd(Ln, lam);
       if (!O.conformal) {            // equal area: the pole is a finite arc (or line) with k = inf: plane tolerance
-        Q e = hypotq(Q(x) - P.x, Q(y) - P.y), t = TOLP + 16 * 1.1e-16Q * hypotq(P.x, P.y);
+        Q e = hypotq(Q(x) - P.x, Q(y) - P.y), t = TOLP + 2 * eps_plane;
         WORST("albers.singular-pole.plane/tol", D(e / t), 0);
         if (e > t) FAIL("singular-pole", "pole arc: x=" + fx(x) + " y=" + fx(y) + " closed form " + fq(P.x) + "," + fq(P.y), DT());
       } else if (O.conic) {
@@ -201,7 +203,12 @@ static void check_projection(Ctx& ctx, const Ell& E, const Under& U, const Oracl
       double la2 = NAN, lo2 = NAN, g2 = NAN, k2 = NAN; int sg2 = 0;
       try { sg2 = mc::crashed([&] { U.rev(lon0, x, y, la2, lo2, g2, k2); }); } catch (const std::exception& e) { FAIL("rev-exception", e.what()); continue; }
       if (sg2) { FAIL("rev-crash", "signal " + fmti(sg2)); continue; }
-      if (!(std::isfinite(la2) && std::isfinite(lo2) && std::isfinite(g2) && std::isfinite(k2))) { FAIL("rev-nonfinite", "lat=" + fmt(la2) + " lon=" + fmt(lo2) + " gamma=" + fmt(g2) + " k=" + fmt(k2)); continue; }
+      if (!(std::isfinite(la2) && std::isfinite(lo2) && std::isfinite(g2) && std::isfinite(k2))) {
+        // finding: LambertConformalConic::Reverse of the image of the apex pole: t^n - 1 = _t0nm1 + n drho/_scale can round to just below -1 and Dlog1p then yields NaN
+        const bool apex = singular && O.conformal && O.conic && (O.n > 0) == (lat > 0) && fabsq(O.n) != 1;
+        FAIL("rev-nonfinite", "lat=" + fmt(la2) + " lon=" + fmt(lo2) + " gamma=" + fmt(g2) + " k=" + fmt(k2), apex ? mc::Fields{{"defect", "lcc-reverse-nan-at-apex-pole"}} : mc::Fields{});
+        continue;
+      }
       if (!(std::fabs(la2) <= 90 && lo2 >= -180 && lo2 <= 180)) FAIL("rev-range", "lat=" + fx(la2) + " lon=" + fx(lo2));
       Q dN = (Q(la2) - Q(lat)) * proj_cf::deg() * Mr;
       Q dE = pole ? Q(0) : angdiff(angdiff(Q(lo2), Q(lon0)), Q(dlon)) * proj_cf::deg() * Pr;
@@ -279,7 +286,8 @@ static void check_same(Ctx& ctx, const Ell& E, const Under& A_, const Under& B_,
     ctx.worst("same-projection.pos/tol", D(err / t), where);
     bool bad = err > t || fabsq(angdiff(Q(g1), Q(g2))) > 7e-13Q || (!pole && fabsq(Q(k1) / Q(k2) - 1) > tk);
     if (bad) ctx.fail(where + " same", where + ": (" + fx(x1) + "," + fx(y1) + "," + fx(g1) + "," + fx(k1) + ") vs (" + fx(x2) + "," + fx(y2) + "," + fx(g2) + "," + fx(k2) + ")",
-                      {{"kind", "ctor-forms-differ"}, {"a", A_.name}, {"b", B_.name}, {"lat", fmt(lat)}, {"dlon", fmt(dlon)}});
+                      (A_.defect_blanket || B_.defect_blanket) ? mc::Fields{{"kind", "ctor-forms-differ"}, {"a", A_.name}, {"b", B_.name}, {"lat", fmt(lat)}, {"dlon", fmt(dlon)}, {"defect", A_.defect_blanket ? A_.defect : B_.defect}}
+                                                               : mc::Fields{{"kind", "ctor-forms-differ"}, {"a", A_.name}, {"b", B_.name}, {"lat", fmt(lat)}, {"dlon", fmt(dlon)}});
   }
 }
 
@@ -434,7 +442,7 @@ int main(int argc, char** argv) {
           auto must_throw = [&](const std::string& nm, std::function<void()> mk) {
             mc::Ctx::Case cs(ctx); bool threw = false;
             try { mk(); } catch (const GeographicErr&) { threw = true; } catch (...) {}
-            if (!threw) ctx.fail(nm + " accepted " + EP.name, nm + " (" + EP.name + "): documented GeographicErr not thrown", {{"kind", "ctor-accepts-inadmissible"}, {"proj", nm}});
+            if (!threw) ctx.fail(nm + " accepted " + EP.name, nm + " (" + EP.name + "): documented GeographicErr not thrown", {{"kind", "ctor-accepts-inadmissible"}, {"proj", nm}, {"ctor", nm.find("sincos") != std::string::npos ? "sincos" : (nm.find("Lambert") == 0 ? "lcc-degrees" : "degrees")}});
           };
           if (!albers) for (const Pair& q : ALBERS_ONLY) for (int ord = 0; ord < 2; ++ord) {
             double a1 = ord ? q.l2 : q.l1, a2 = ord ? q.l1 : q.l2, s1, c1, s2, c2; sincos_deg(a1, s1, c1); sincos_deg(a2, s2, c2);
@@ -468,18 +476,19 @@ int main(int argc, char** argv) {
           }
         };
         double s1, c1, s2, c2; sincos_deg(sp.l1, s1, c1); sincos_deg(sp.l2, s2, c2);
+        const double fac2 = (std::fabs(sp.l1) == 90 || std::fabs(sp.l2) == 90) ? 0.5 : 0.25;
         if (albers) {
           if (sp.single) add(fmt(sp.l1), [&](Under& U) { bind(U, std::make_shared<AlbersEqualArea>(EP.a, EP.f, sp.l1, k1)); });
           add(fmt(sp.l1) + "," + fmt(sp.l2), [&](Under& U) { bind(U, std::make_shared<AlbersEqualArea>(EP.a, EP.f, sp.l1, sp.l2, k1)); });
           if (!sp.single) add(fmt(sp.l2) + "," + fmt(sp.l1), [&](Under& U) { bind(U, std::make_shared<AlbersEqualArea>(EP.a, EP.f, sp.l2, sp.l1, k1)); });
           add("sincos " + fmt(sp.l1) + "," + fmt(sp.l2), [&](Under& U) { bind(U, std::make_shared<AlbersEqualArea>(EP.a, EP.f, s1, c1, s2, c2, k1)); });
-          if (T) add("sincos(x0.5,x0.25) " + fmt(sp.l1) + "," + fmt(sp.l2), [&](Under& U) { bind(U, std::make_shared<AlbersEqualArea>(EP.a, EP.f, s1 * 0.5, c1 * 0.5, s2 * 0.25, c2 * 0.25, k1)); });
+          if (T) add("sincos(x0.5,x0.25) " + fmt(sp.l1) + "," + fmt(sp.l2), [&](Under& U) { bind(U, std::make_shared<AlbersEqualArea>(EP.a, EP.f, s1 * 0.5, c1 * 0.5, s2 * fac2, c2 * fac2, k1)); });
         } else {
           if (sp.single) add(fmt(sp.l1), [&](Under& U) { bind(U, std::make_shared<LambertConformalConic>(EP.a, EP.f, sp.l1, k1)); });
           add(fmt(sp.l1) + "," + fmt(sp.l2), [&](Under& U) { bind(U, std::make_shared<LambertConformalConic>(EP.a, EP.f, sp.l1, sp.l2, k1)); });
           if (!sp.single) add(fmt(sp.l2) + "," + fmt(sp.l1), [&](Under& U) { bind(U, std::make_shared<LambertConformalConic>(EP.a, EP.f, sp.l2, sp.l1, k1)); });
           add("sincos " + fmt(sp.l1) + "," + fmt(sp.l2), [&](Under& U) { bind(U, std::make_shared<LambertConformalConic>(EP.a, EP.f, s1, c1, s2, c2, k1)); });
-          if (T) add("sincos(x0.5,x0.25) " + fmt(sp.l1) + "," + fmt(sp.l2), [&](Under& U) { bind(U, std::make_shared<LambertConformalConic>(EP.a, EP.f, s1 * 0.5, c1 * 0.5, s2 * 0.25, c2 * 0.25, k1)); });
+          if (T) add("sincos(x0.5,x0.25) " + fmt(sp.l1) + "," + fmt(sp.l2), [&](Under& U) { bind(U, std::make_shared<LambertConformalConic>(EP.a, EP.f, s1 * 0.5, c1 * 0.5, s2 * fac2, c2 * fac2, k1)); });
         }
         // static instances
         if (std::string(EP.name) == "WGS84" && k1 == 1.0 && sp.single) {
@@ -497,7 +506,13 @@ int main(int argc, char** argv) {
           if (have) forms.push_back(S);
         }
         std::vector<double> stds = {sp.l1, sp.l2};
-        if (albers_south) for (Under& U : forms) {
+        const bool pole_plus_parallel = albers && !sp.single && (std::fabs(sp.l1) == 90 || std::fabs(sp.l2) == 90) && sp.l1 != sp.l2;
+        if (pole_plus_parallel) for (Under& U : forms) {
+          // finding: AlbersEqualArea::Init sets polar = (cphi1 == 0) before ordering the parallels: with the pole given FIRST the second parallel is ignored (azimuthal
+          // projection); with the pole second the general code runs with a clamped cosine and yields NaN / inaccurate Reverse in places.  The documentation admits these inputs.
+          U.defect = "albers-pole-plus-parallel"; U.defect_blanket = true;
+        }
+        if (albers_south && !pole_plus_parallel) for (Under& U : forms) {
           // defect found by this check (repaired in /repo, kept as a recognised class): AlbersEqualArea::Forward applied _sign twice to the latitude, so on a southern cone it returned the image of -lat
           U.defect = "albers-south-forward-uses-minus-lat";
           U.defect_image = [O](Lat L, Q lam) { Lat Lm = L; Lm.s = -L.s; return O.fwd(Lm, lam); };
@@ -512,11 +527,12 @@ int main(int argc, char** argv) {
             Q ek = fabsq(Q(U.k0c) / k0o - 1);
             // documented: 4.5e-14 deg for |dlat| <= 160 and parallels not within ~0.0002 deg of a pole (sin/cos form); 7e-15 relative in the scale (LCC)
             Q tl = 2 * 4.5e-14Q, tk = 2 * 7e-15Q;
+            if (fabsq(E.f) > 0.1000001Q) { tl *= 4; tk *= 4; }       // outside the flattening range for which any accuracy is documented ("verify independently")
             bool nearpole = std::max(std::fabs(sp.l1), std::fabs(sp.l2)) > 90 - 0.0002 && !sp.single;
             ctx.worst("origin-latitude/tol", D(el / tl), U.name);
             ctx.worst("central-scale/tol", D(ek / tk), U.name);
-            if ((el > tl || ek > tk) && !nearpole) ctx.fail(U.name + " origin", U.name + ": OriginLatitude " + fx(U.lat0) + " CentralScale " + fx(U.k0c) + " closed form " + fq(O.phi0 / proj_cf::deg()) + " " + fq(k0o),
-                                                             {{"kind", "origin"}, {"proj", U.name}}); }
+            if ((el > tl || ek > tk) && !nearpole) { mc::Fields ff = {{"kind", "origin"}, {"proj", U.name}}; if (U.defect_blanket) ff.push_back({"defect", U.defect});
+              ctx.fail(U.name + " origin", U.name + ": OriginLatitude " + fx(U.lat0) + " CentralScale " + fx(U.k0c) + " closed form " + fq(O.phi0 / proj_cf::deg()) + " " + fq(k0o), ff); } }
           check_projection(ctx, E, U, O, A, fam, stds, k1, fi == 0);
           if (fi > 0) { Axes As; As.lats = {-89, -45, 0, 1e-9, 30, 60, 89.999999999, 90, -90}; As.dlons = {0, 30, -179}; check_same(ctx, E, forms[0], U, O, As, 2e-9Q * (E.a / WGS84_A)); }
         }
@@ -541,8 +557,25 @@ int main(int argc, char** argv) {
             else { lc = std::make_shared<LambertConformalConic>(sp.single ? LambertConformalConic(EP.a, EP.f, sp.l1, k1) : LambertConformalConic(EP.a, EP.f, sp.l1, sp.l2, k1)); lc->SetScale(ls, ks); bind(U, lc); }
           } catch (const std::exception& e) { ctx.fail(U.name + " setscale-exception", U.name + ": " + e.what(), {{"kind", "setscale-exception"}, {"proj", U.name}}); continue; }
           Oracle Os = albers ? make_albers_oracle(E, L1, L2, k1s) : make_lcc_oracle(E, L1, L2, k1s);
+          // SetScale derives the new scale from Forward's k at lat = ls; an error of that k within ITS tolerance (round-off + position tolerance over the distance to
+          // the apex) becomes a systematic scale error of the whole map.  So (1) the resulting CentralScale is held to that conditioned tolerance against the closed
+          // form, and (2) the lattice below is judged against the closed form carrying the library's own central scale.
+          if (!south_defect_present) {
+            Lat Ls = proj_cf::latd(ls); XY Ps = Os.fwd(Ls, Q(0)); Q ks_o = Os.k(Ls);
+            Q k0o = std::fabs(lat0d) == 90 ? Q(k1s) : Os.k(proj_cf::latr(Os.phi0));
+            const Q ULPS = fabsq(E.f) <= 0.0100001Q ? 16 : 64;
+            Q size = std::max(std::max(fabsq(Ps.x), fabsq(Ps.y)), std::max(fabsq(Os.rho0), E.a)), eps_plane = ULPS * 1.1e-16Q * size;
+            Q rapex = Os.conic ? hypotq(Ps.x, Os.rho0 - Ps.y) : HUGE_VALQ;
+            Q tk0 = 4 * (1.6e-14Q + (20e-9Q * (E.a / WGS84_A) * (albers ? 1 / ks_o : ks_o) + eps_plane) / rapex);
+            Q ek0 = fabsq(Q(U.k0c) / k0o - 1);
+            ctx.worst("setscale.central-scale/tol", D(ek0 / tk0), U.name);
+            if (ek0 > tk0) { mc::Fields ff = {{"kind", "setscale-k0"}, {"proj", U.name}}; if (!albers && fabsq(Q(ks) / kold - 1) > 1e-15Q) ff.push_back({"defect", "lcc-setscale-stale-nrho0"});
+              ctx.fail(U.name + " setscale-k0", U.name + ": CentralScale " + fx(U.k0c) + " closed form " + fq(k0o) + " tol " + fq(tk0), ff); }
+            else if (ek0 > 0) { k1s = (double)(Q(k1s) * (Q(U.k0c) / k0o)); Os = albers ? make_albers_oracle(E, L1, L2, k1s) : make_lcc_oracle(E, L1, L2, k1s); }
+          }
           Family f2 = fam;
           if (south_defect_present) { U.defect = "albers-south-forward-uses-minus-lat"; U.defect_blanket = true; }
+          if (pole_plus_parallel) { U.defect = "albers-pole-plus-parallel"; U.defect_blanket = true; }
           const Q r = Q(ks) / kold;                                 // factor by which SetScale changes the scale
           if (!albers && fabsq(r - 1) > 1e-15Q && Os.n != 0 && fabsq(Os.n) != 1) {
             // defect found by this check (repaired in /repo, kept as a recognised class): LambertConformalConic::SetScale rescaled _scale and _k0 but not _nrho0 (= n rho0) and _drhomax: Forward then returned
